@@ -34,6 +34,16 @@ def corpus : Array String := #[
   "r3k2r/8/8/8/8/8/1b6/R3K2R b KQkq - 0 1",
   "r3k2r/8/5N2/8/8/8/8/R3K2R b KQkq - 0 1",
   "4k2r/8/8/8/8/8/8/R3K3 w Qk - 5 20",
+  -- a rook that still carries its right can be captured on its corner by a knight, a bishop on the
+  -- long diagonal, a rook, or a pawn promoting there (the right must die with the rook)
+  "r3k2r/5N2/8/8/8/8/8/4K3 w kq - 0 1",
+  "r3k2r/2N5/8/8/8/8/8/4K3 w kq - 0 1",
+  "r3k2r/8/8/8/8/8/1B4B1/4K3 w kq - 0 1",
+  "4k3/8/8/8/8/8/5n2/R3K2R b KQ - 0 1",
+  "4k3/1b4b1/8/8/8/8/8/R3K2R b KQ - 0 1",
+  "r3k2r/6P1/8/8/8/8/8/4K3 w kq - 0 1",
+  "r3k1nr/8/8/8/8/8/8/R3K2R w KQkq - 0 1",
+  "4k1nr/8/8/7R/8/8/7r/4K3 w k - 0 1",
   "1r2k2r/8/8/8/8/8/8/R3K1R1 w Qk - 0 1",
   -- promotions and capture-promotions, both colours
   "n1n5/PPPk4/8/8/8/8/4Kppp/5N1N b - - 0 1",
